@@ -20,6 +20,7 @@ func child(deadline time.Time) *sched.RaceSummary {
 	var wg sync.WaitGroup
 	sem := make(chan struct{}, 8)
 	scs := conch.Scenarios()
+	privateFlush(s) // round 3: scan on private-over-private, then the flush (pflush.go)
 	for round := 0; round < 400 && !s.Capped; round++ {
 		for _, sc := range scs {
 			if time.Now().After(deadline) {
@@ -51,9 +52,11 @@ func child(deadline time.Time) *sched.RaceSummary {
 
 func TestCheck(t *testing.T) {
 	vk.UseT(t)
+	pflushScenario()
 	sched.RaceChild(child)
 	r := vk.Start("C09", "model_checking", 60*time.Second, 4*time.Minute)
 	sched.RunRaceParent(r, vk.Pick(r, 20, 120),
 		"data-race pass: the C09 concurrent harness bodies (Persist + readers + writer on one shared MemCachedStore) free-running on the unmodified storage package under the Go race detector, histories checked with porcupine; a race report or an oracle failure is a violation",
-		[]string{"the race pass is a sample of free-running schedules (the exhaustive part is the scheduler part); it exists because unsynchronised accesses are invisible to a cooperative scheduler"})
+		[]string{"the race pass is a sample of free-running schedules (the exhaustive part is the scheduler part); it exists because unsynchronised accesses are invisible to a cooperative scheduler",
+			"round 3, private-flush scenario (one process per backend, deterministic): transaction layer = GetPrivate(), callee layer = GetPrivate() of it, callee.SeekAsync, callee.Persist() once the scan goroutine has been seen inside the backend's Seek (marker file: real-time separation without a synchronisation edge, so the detector reports the unordered accesses and no fatal map error can occur), drain; the answer itself must be the reference"})
 }
